@@ -115,7 +115,10 @@ CLAIMED["C13"] = dict(cat="proof", ref="DESIGN.md §5 C13, §12",
         "not a fixed point); strings are interpolated without JSON escaping in both implementation and model (names/symbols are regex-restricted)",
    tech="Lean 4 proof (parser/canonical writer lockstep with an independent spec transformation) + cosmetic-rewrite harness")
 CLAIMED["C08"] = dict(cat="proof", ref="DESIGN.md §5 C08, §12",
-   text="PARTIAL proof. Lean theorems for each resolution step, for every input: c08_promotions (the promotion pairs of match_types and the conversions of "
+   text="PARTIAL proof. Lean theorems: the decision logic for every pair of schemas at any nesting, inline or by reference — c08_match_eq_spec (whenever match_types "
+        "returns it returns the specification's 'schemas match') and c08_pick_eq_spec (the branch of a reader union found through _reader_branches + match_types is the "
+        "one the specification's rule picks: own type first, full-name match before namesakes, else first promotable) under EnvWF/MClosed (tables as parse_schema builds "
+        "them, schemas closed); and each resolution step for every input: c08_promotions (the promotion pairs of match_types and the conversions of "
         "maybe_promote are the specification's; both are regenerated from /repo's source each run — Tables.resolve_tables), c08_primitives (a primitive under "
         "a primitive reader type = the specification reader on every byte string), c08_enum_default, c08_field_matching (match by name, else reader alias, any "
         "order, others skipped). The composition through arrays, maps, records, unions and named types at any depth (C08_full, stated in Properties/C08.lean) is "
